@@ -42,7 +42,7 @@ def random_vector(rnd, max_groups=64):
     elif r < 0.8:
         n = rnd.randint(2, 12)
     else:
-        n = rnd.randint(13, max_groups)
+        n = rnd.randint(min(13, max_groups), max_groups)
     style = rnd.choice(["small-int", "int", "decimal", "tenths", "mixed", "extremes", "equal"])
     out = []
     for _ in range(n):
